@@ -1199,7 +1199,11 @@ def build_plan(tier, seed):
                         ("u8", [x for x in range(0, 256) if x % 37 != 5]),
                         ("i16", list(range(-20, 280))), ("u16", [x for x in range(0, 310) if x != 100]),
                         ("i16", [-300, -299, -100, -1, 0, 1, 7, 20, 21, 22, 100, 1000, 1001, 5000, 5002, 5004, 32767]),
-                        ("u8", [x for x in range(0, 100) if x % 5 != 0]), ("i64", [x for x in range(-40, 40) if x % 3 != 0])])
+                        ("u8", [x for x in range(0, 100) if x % 5 != 0]), ("i64", [x for x in range(-40, 40) if x % 3 != 0]),
+                        # enums WITH HOLES in which one run spans more than half of a one-byte signed type (its length does not
+                        # fit the repr): at the lower limit, in the middle, at the upper limit
+                        ("i8", list(range(-128, 20)) + [50]), ("i8", [-128] + list(range(-100, 50)) + [127]),
+                        ("i8", [-128, -127] + list(range(-10, 128)))])
     else:
         pl.shapes(prim.REPRS, per_repr_small=None, per_repr_large=200, kappas_per_shape=3)
         pl.full_paths()
@@ -1224,6 +1228,9 @@ def build_plan(tier, seed):
                         ("i16", list(range(-20, 280))), ("u16", [x for x in range(0, 310) if x != 100]),
                         ("i16", [-300, -299, -100, -1, 0, 1, 7, 20, 21, 22, 100, 1000, 1001, 5000, 5002, 5004, 32767]),
                         ("u8", [x for x in range(0, 100) if x % 5 != 0]), ("i64", [x for x in range(-40, 40) if x % 3 != 0]),
+                        ("i8", list(range(-128, 20)) + [50]), ("i8", [-128] + list(range(-100, 50)) + [127]),
+                        ("i8", [-128, -127] + list(range(-10, 128))),
+                        ("i16", list(range(-32768, 10)) + [20, 21]),          # a run of 32 778 values in a two-byte signed type
                         ("i64", list(range(-9223372036854775808, -9223372036854775808 + 3000)))])
     return pl
 
